@@ -171,6 +171,8 @@ def index_exprs(shape):
     out = list(one)
     if r >= 2:
         out += [(0, 1), (-1, slice(0, 2)), (slice(None), 1), (Ellipsis, 0), (slice(0, 1), slice(1, 3)), (1, Ellipsis), (slice(None), -1)]
+        # negative integers behind an Ellipsis / a new axis (they count from the end of *their* axis)
+        out += [(Ellipsis, -1), (None, -1), (None, -1, -2), (Ellipsis, -2), (-1, None, -1)]
     if r >= 3:
         out += [(0, 0, 1), (Ellipsis, 1), (1, slice(None), 0)]
     # list / ndarray / boolean (fancy) indices select along the first trailing axis
@@ -246,6 +248,17 @@ def run_bcast(shard, res):
             want_items = int(np.prod(want_shape[1:])) if len(want_shape) > 1 else 1
         except Exception as e:
             res.violate(violation('slice-shape:raises', f'Algebra{tuple(shard["alg"])} X[{ix!r}].shape / itermv() ({shard["cont"]}, shape {shape}): {type(e).__name__}: {e}', case, str(want_shape), repr(e)))
+            continue
+        # the selected coefficients themselves, against numpy's indexing of the coefficient array
+        try:
+            sub = ax[(slice(None),) + sel]
+            gotv = np.array([np.asarray(v, dtype=float) for v in X[ix].values()])
+            if gotv.shape != sub.shape or not np.array_equal(gotv, sub):
+                res.violate(violation('getitem', f'Algebra{tuple(shard["alg"])} X[{ix!r}] ({shard["cont"]}, shape {shape}) does not hold the addressed coefficients', case,
+                                      str(sub.tolist())[:300], str(gotv.tolist())[:300]))
+                continue
+        except Exception as e:
+            res.violate(violation('getitem:raises', f'Algebra{tuple(shard["alg"])} X[{ix!r}] ({shard["cont"]}, shape {shape}): {type(e).__name__}: {e}', case, '', repr(e)))
             continue
         if got_shape != want_shape or n_items != want_items:
             res.violate(violation('slice-shape', f'Algebra{tuple(shard["alg"])} X[{ix!r}] ({shard["cont"]}, shape {shape}) reports shape {got_shape} and yields {n_items} multivectors', case,
